@@ -350,6 +350,9 @@ def features(fmt, spec):
     elif fmt == "treeinfo":
         if _u3(v["key"] for v in spec["variants"]):
             f.append("ti:top-level variant dict >=3 unsorted")
+        uids = [v["uid"] for v in spec["variants"]]
+        if len(set(uids)) < len(uids):
+            f.append("ti:two top-level variants with one UID")
         for v, parent in FTI.all_variants(spec["variants"]):
             uids = [k["uid"] for k in v["variants"]]
             if _u3(uids):
@@ -548,6 +551,17 @@ class C08(Prop):
                 spec = boost_treeinfo(spec, rng)
             elif i % 8 <= 6:
                 spec = boost_treeinfo2(spec, rng, i % 8 - 3)
+            elif i % 16 == 7:
+                # two top-level variants that share ONE UID (legal: a top-level UID is not validated; types variant/addon keep their
+                # sections apart) and main_variant = that UID: resolved by a first-match UID scan (C08_treeinfo_shared_uid_witness, F44)
+                have = set(v["key"] for v in spec["variants"])
+                ids = [x for x in ("Xs", "Ys") if x not in have]
+                if len(ids) == 2:
+                    uid = "Sh-ared%d" % rng.randrange(10)
+                    for vid, typ in zip(ids, rng.choice([("variant", "addon"), ("addon", "optional")])):
+                        spec["variants"].append({"key": vid, "id": vid, "uid": uid, "name": "N " + vid, "type": typ,
+                                                 "paths": [["packages", "pkgs-" + vid], ["repository", "repo-" + vid]], "variants": []})
+                    mv = uid
         elif fmt == "discinfo":
             spec = FDI.gen(rng, tier)
             if i % 3 == 0:                              # >= 3 disc numbers, not ascending, one repeated (caller-ordered content)
